@@ -12,6 +12,9 @@ import (
 // VerifServerHandle runs Server.handle (buffer from the pool, route, close) on conn.
 func VerifServerHandle(s *Server, conn net.Conn) { s.handle(conn) }
 
+// VerifServe runs the TCP accept loop on ln.
+func VerifServe(s *Server, ln net.Listener) error { return s.serve(ln) }
+
 // VerifServePacket runs the UDP demultiplexing loop on pc.
 func VerifServePacket(s *Server, pc net.PacketConn) error { return s.servePacket(pc) }
 
